@@ -48,6 +48,19 @@ class VariableCacheProvider:
     def __init__(self):
         """Create new cache."""
         self.__cache = {}
+        self.__alive = []
+
+    def keep_alive(self, value):
+        """
+        Keep a processed value alive for as long as this cache is used.
+
+        The cache is keyed by id(value), and ids are only unique among objects that are alive at the same time: the
+        result of a watch expression is a temporary that would otherwise be freed as soon as it has been processed, and
+        the next temporary can get the same id (and so be reported with the previous value).
+
+        :param value: the value that has been given an id
+        """
+        self.__alive.append(value)
 
     def check_id(self, identity_hash_id) -> Optional[str]:
         """
@@ -128,6 +141,7 @@ class VariableSetProcessor(Collector):
         :return:
         """
         identity_hash_id = str(id(value))
+        self.__var_cache.keep_alive(value)
         check_id = self.__var_cache.check_id(identity_hash_id)
         if check_id is not None:
             # this means the watch result is already in the var_lookup
